@@ -313,6 +313,13 @@ func init() {
 		// ghost: the value has been handed to its unmarshaler
 		um := e.ghostArr(st, "unmarshalled", SArrB)
 		e.setGhost(st, "unmarshalled", e.tb.Store(um, recv.ifVal(), e.tb.True()))
+		// ghost: the identity of the bytes it was given (unmarshalledFrom(y); equals marshalOf(x) iff they are what x's marshaler produced)
+		if len(args) == 1 && len(args[0].T) == 4 {
+			d := e.materialiseIfSlice(st, args[0], c.Signature().Params().At(0).Type())
+			row := e.tb.Select(e.H(st, "E:uint8", SArr2I), d.slArr())
+			uf := e.ghostArr(st, "unmarshalledFrom", SArrI)
+			e.setGhost(st, "unmarshalledFrom", e.tb.Store(uf, recv.ifVal(), e.tb.App("bytestok", SInt, row, d.slOff(), d.slLen())))
+		}
 		k(st, e.freshVal(st, c.Signature().Results().At(0).Type(), "unm_err"))
 	}
 	libIface["encoding.BinaryMarshaler.MarshalBinary"] = func(e *Engine, st *State, c *ssa.CallCommon, recv Val, args []Val, pos token.Pos, k Kont) {
@@ -323,6 +330,8 @@ func init() {
 		sl := e.allocSlice(st, types.Typ[types.Uint8], ln, ln)
 		cl := "E:uint8"
 		st.Heap[cl] = tb.Store(e.H(st, cl, SArr2I), sl.slArr(), tb.App("marshalbytes", SArrI, recv.ifTag(), recv.ifVal()))
+		// marshalOf(x): the identity of what x's marshaler produced (a function of its bytes)
+		e.assume(st, tb.Eq(tb.App("bytestok", SInt, tb.App("marshalbytes", SArrI, recv.ifTag(), recv.ifVal()), tb.Int(0), ln), tb.App("marshalval", SInt, recv.ifTag(), recv.ifVal())))
 		errv := e.freshVal(st, c.Signature().Results().At(1).Type(), "mb_err")
 		k(st, Val{Elems: []Val{sl, errv}})
 	}
@@ -353,7 +362,15 @@ func init() {
 				b := e.materialiseIfSlice(st, args[len(args)-2], fn.Signature.Params().At(0).Type())
 				e.oblige(st, "bounds", "", pos, tb.Ge(b.slLen(), tb.Int(int64(w/8))), fmt.Sprintf("binary.%s.PutUint%d: slice shorter than %d bytes", bo, w, w/8))
 				h := e.H(st, "E:uint8", SArr2I)
-				e.setH(st, "E:uint8", tb.Store(h, b.slArr(), tb.Fresh("put_row", SArrI)))
+				oldRow := tb.Select(h, b.slArr())
+				nr := tb.Fresh("put_row", SArrI)
+				// the written bytes decode to the value (Uint(Put(v)) == v); bytes outside the w/8 written ones keep their values
+				e.Assumed["encoding/binary byte orders: UintN reads back what PutUintN wrote"] = true
+				v := args[len(args)-1].T[0]
+				e.assume(st, tb.Eq(tb.App(fmt.Sprintf("bo_%s_u%d", bo, w), SInt, nr, b.slOff()), tb.Mod(v, tb.BigInt(pow2big(w)))))
+				m := tb.BoundVar("m", SInt)
+				e.assume(st, tb.Forall([]*Term{m}, tb.Implies(tb.Or(tb.Lt(m, b.slOff()), tb.Ge(m, tb.Add(b.slOff(), tb.Int(int64(w/8))))), tb.Eq(tb.Select(nr, m), tb.Select(oldRow, m))), []*Term{tb.Select(nr, m)}))
+				e.setH(st, "E:uint8", tb.Store(h, b.slArr(), nr))
 				k(st, Val{})
 			}
 		}
